@@ -244,9 +244,3 @@ Example C08_nonvacuous :
   map (fun n => snd (fst (nstep exOk exAcc s (al 0, UpdateSnapshotCount n)))) [5; 3; 7; 6; 0; 255; 254]
   = [false; true; false; false; false; false; false].
 Proof. vm_compute. repeat split; reflexivity. Qed.
-
-(** Source constants.  The literals of the model behind this property are tied to the
-    constants of /repo's Go sources (Gen/Params.v, regenerated from the working tree on
-    every run) in Proofs/TiesNetmap.v; requiring that file here makes the obligations of this
-    property fail when a constant it depends on is edited in the source. *)
-Require Verif.Proofs.TiesNetmap.
